@@ -100,7 +100,7 @@ def main():
     if P is None:
         print('property %s is not claimed (see MANIFEST.json not_applicable)' % pid)
         return 3
-    timeout_ms = 10000 if tier == 'quick' else 60000
+    timeout_ms = 20000 if tier == 'quick' else 60000
     axioms = smt.class_axioms()
     results = verify.verify_many(spec, P['functions'], axioms + smt.literal_axioms(), timeout_ms)
     refused = [(r.key, r.refused) for r in results if r.refused]
